@@ -161,3 +161,43 @@ fn tree_f64_history2() {
     let p = t.pop();
     assert!(p.is_some());
 }
+
+pub struct WordsRng { pub w: [u64; 4], pub i: usize }
+impl TryRng for WordsRng {
+    type Error = rand::rand_core::Infallible;
+    fn try_next_u32(&mut self) -> Result<u32, Self::Error> { let v = self.w[self.i & 3]; self.i += 1; Ok(v as u32) }
+    fn try_next_u64(&mut self) -> Result<u64, Self::Error> { let v = self.w[self.i & 3]; self.i += 1; Ok(v) }
+    fn try_fill_bytes(&mut self, _: &mut [u8]) -> Result<(), Self::Error> { unimplemented!() }
+}
+
+/// one ziggurat step of StandardNormal (first iteration; tail loop first iteration)
+#[kani::proof]
+#[kani::unwind(1)]
+#[kani::stub(libm::exp, exp_contract)]
+#[kani::stub(libm::log, ln_contract)]
+fn normal_step_contract() {
+    use crate::ziggurat_tables::*;
+    let w: [u64; 4] = kani::any();
+    let mut rng = WordsRng { w, i: 0 };
+    let x: f64 = StandardNormal.sample(&mut rng);
+    let i = (w[0] & 0xff) as usize;
+    let neg = (w[0] >> 63) == 0; // into_float_with_exponent(1) of bits>>12 in [2,4) minus 3: sign decided by top mantissa bit
+    assert!(!x.is_nan());
+    assert!(x.abs() <= ZIG_NORM_X[0] || (i == 0 && x.abs() >= ZIG_NORM_R));
+    if i > 0 { assert!(x.abs() <= ZIG_NORM_X[i]); }
+    if x != 0.0 { assert!((x < 0.0) == neg); }
+}
+
+#[kani::proof]
+#[kani::unwind(2)]
+fn normal_step_concrete() {
+    use crate::ziggurat_tables::*;
+    let w: [u64; 4] = [9223372036854778111u64, 8589934766, 9943845831295864832, 43980550195200];
+    let mut rng = WordsRng { w, i: 0 };
+    let x: f64 = StandardNormal.sample(&mut rng);
+    kani::cover!(x == 0.0);
+    kani::cover!(rng.i == 2);
+    let ax = if x < 0.0 { -x } else { x };
+    assert!(ax <= ZIG_NORM_X[255]);
+    assert!(x.abs() == ax);
+}
